@@ -4,6 +4,15 @@
     values far from overflow): Min, Max, Sum (M = unit: modify and push are the trait
     defaults = no-ops), MinAdd, MaxAdd, SumAdd (M = Z), Combinator U V.
     None of them overrides [update], so [update self l r = merge l r].
+    The same built-ins over element types where the choice of operand matters:
+      Min / Max / MinAdd / MaxAdd over [Keyed { key, id }] (defined in the executor:
+                ordered and compared by [key] only, [+=] adds the keys and keeps the
+                left id) — elements that compare equal are still distinguishable, so the
+                tie rule of [merge] ("the RIGHT operand unless the left one is strictly
+                smaller / larger") is observable; modelled as pairs (key, id);
+      Min / Max over f64 restricted to integral values and the two zeros: -0.0 and 0.0
+                compare equal and differ in their bits: (key, id) = (value, sign bit of a zero);
+      Sum over [Cat] (a string with [+] = concatenation: operand order of [Sum::merge]).
     Three user items defined in the executor (harness/crates/c01/src/main.rs):
       Concat  — parts : Vec<String>, merge = concatenation of the part lists (not
                 commutative), modifier Assign s | Append s acting on every part,
@@ -151,3 +160,30 @@ Definition fl_obs (x : flip) : Z * Z := (fl_ones x, fl_len x).
 Definition fl_act (_ : unit) (a : Z * Z) : Z * Z := (snd a - fst a, snd a).
 Definition fl_eqb (a b : flip) :=
   (fl_ones a =? fl_ones b) && (fl_len a =? fl_len b) && Bool.eqb (fl_flip a) (fl_flip b).
+
+(** ---- Min / Max over an element type ordered by a key only: pairs (key, id) ----
+    [Min<T>::merge]: [if left.v < right.v { left } else { right }]: on a tie the RIGHT operand. *)
+Definition kmin_merge (l r : Z * Z) : Z * Z := if fst l <? fst r then l else r.
+Definition kmax_merge (l r : Z * Z) : Z * Z := if fst l >? fst r then l else r.
+(** [Keyed::MAX = { key: i64::MAX, id: -1 }], [Keyed::MIN = { key: i64::MIN, id: -1 }] (executor) *)
+Definition keyed_max : Z * Z := (i64_max, -1).
+Definition keyed_min : Z * Z := (i64_min, -1).
+(** f64: [MinMax::MAX = f64::MAX = (2^53 - 1) * 2^971], [MIN = -MAX]; never a zero, so id 0 *)
+Definition f64_max : Z := (2 ^ 53 - 1) * 2 ^ 971.
+Definition f64k_max : Z * Z := (f64_max, 0).
+Definition f64k_min : Z * Z := (- f64_max, 0).
+
+(** ---- MinAdd / MaxAdd over Keyed: struct { v : Keyed, md : Keyed }, modifier type Keyed ----
+    [Keyed += m]: key += m.key, the id stays. *)
+Definition k_add (a m : Z * Z) : Z * Z := (fst a + fst m, snd a).
+Record kvadd := KVA { kva_v : Z * Z; kva_md : Z * Z }.
+Definition kva_new (v : Z * Z) := KVA v (0, 0).
+Definition kminadd_merge (l r : kvadd) := kva_new (kmin_merge (kva_v l) (kva_v r)).
+Definition kmaxadd_merge (l r : kvadd) := kva_new (kmax_merge (kva_v l) (kva_v r)).
+Definition kva_modify (x : kvadd) (m : Z * Z) := KVA (k_add (kva_v x) m) (k_add (kva_md x) m).
+Definition kva_push (x l r : kvadd) := (KVA (kva_v x) (0, 0), kva_modify l (kva_md x), kva_modify r (kva_md x)).
+Definition kva_eqb (a b : kvadd) := zz_eqb (kva_v a) (kva_v b) && zz_eqb (kva_md a) (kva_md b).
+Definition kadd_act (m : Z * Z) (v : Z * Z) : Z * Z := k_add v m.
+
+(** ---- Sum over Cat (string, + = concatenation, default = empty) ---- *)
+Definition cat_merge (l r : str) : str := l ++ r.
